@@ -278,9 +278,9 @@ impl Prop for C09 {
     }
     fn plan(&self, tier: Tier) -> Vec<GenSpec> {
         vec![
-            GenSpec::random("permuted", tier.pick(3_000, 40_000)),
-            GenSpec::random("chains", tier.pick(10_000, 100_000)),
-            GenSpec::random("arrays", tier.pick(20_000, 200_000)),
+            GenSpec::random("permuted", tier.pick(3_000, 120_000)),
+            GenSpec::random("chains", tier.pick(10_000, 400_000)),
+            GenSpec::random("arrays", tier.pick(20_000, 600_000)),
             GenSpec::random("cyclic", tier.pick(40, 600)).isolated(),
         ]
     }
